@@ -12,6 +12,7 @@ import KrillModel.ES.Lemmas
 import KrillModel.ES.ObsLemmas
 import KrillModel.ES.WalLemmas
 import KrillModel.ES.Reg
+import KrillModel.ES.RegLemmas
 import KrillModel.ES.Bag
 namespace KM.Props.C06
 open KM.ES
@@ -105,14 +106,6 @@ theorem no_panic_of_applicable (hiv : A.initVersion ≤ 1) (hA : ProcessApplicab
 conventions … -/
 example : (Reg.regAgg 1).initVersion ≤ 1 ∧ (Reg.regAgg 0).initVersion ≤ 1 := by decide
 
-theorem reg_multi_applicable (iv n : Nat) (s : Reg.St) :
-    (applyEvents (Reg.regAgg iv) s (List.replicate n (Reg.Ev.added 1))).isSome = true := by
-  induction n generalizing s with
-  | zero => rfl
-  | succ n ih =>
-    simp only [List.replicate_succ, applyEvents, Reg.regAgg, Reg.apply]
-    exact ih _
-
 /-- … and `process` only emits applicable events (the only partial event is `subbed`). -/
 theorem reg_applicable (iv : Nat) : ProcessApplicable (Reg.regAgg iv) := by
   intro s c evs _ hp
@@ -142,7 +135,7 @@ theorem reg_applicable (iv : Nat) : ProcessApplicable (Reg.regAgg iv) := by
     split at hp
     · cases hp
     · cases hp
-      exact reg_multi_applicable iv n s
+      exact Reg.multi_applicable iv n s
   | fail => simp [Reg.regAgg, Reg.process] at hp
   | guarded n =>
     simp only [Reg.regAgg, Reg.process] at hp
